@@ -667,18 +667,24 @@ class Parser:
             **locs,
         )
 
-    def expand_help(self, atoms: list[tuple[ast.Name, TokenInfo]], **_: int) -> ast.Call | None:
+    def expand_help(self, atoms: list[tuple[ast.Name, TokenInfo]], **locs: int) -> ast.Call | None:
         node: ast.Call | None = None
+        start = {"lineno": locs["lineno"], "col_offset": locs["col_offset"]}
         for atom, tok in atoms:
             fn = "superhelp" if tok.is_exact_type("??") else "help"
+            # every call spans from the start of the construct up to its own question mark(s)
             if node is None:
-                node = xonsh_call(f"__xonsh__.{fn}", atom, **tok.loc())
+                node = xonsh_call(f"__xonsh__.{fn}", atom, **start, **tok.loc_end())
             else:
-                node = xonsh_call(
-                    f"__xonsh__.{fn}",
-                    ast.Attribute(value=node, attr=atom.id, ctx=Load, **tok.loc()),
-                    **tok.loc(),
+                attr = ast.Attribute(
+                    value=node,
+                    attr=atom.id,
+                    ctx=Load,
+                    **start,
+                    end_lineno=atom.end_lineno,
+                    end_col_offset=atom.end_col_offset,
                 )
+                node = xonsh_call(f"__xonsh__.{fn}", attr, **start, **tok.loc_end())
         return node
 
     def expand_env_expr(
